@@ -64,25 +64,54 @@ theorem FS.run_writes_tmp (fs : FS) (c : Bytes) (pieces : List Bytes) (h : fs.tm
     simp [this, h2, h3, List.append_assoc]
 
 
-/-- everything `serialize` does before the rename -/
-def serializePre (pieces : List Bytes) : List FsOp :=
+/-- everything the dump writer does before the rename -/
+def dumpPre (pieces : List Bytes) : List FsOp :=
   [.openW .tmp] ++ pieces.map (.write .tmp) ++ [.close .tmp]
+
+/-- everything `serialize` does before the rename -/
+def serializePre (pieces : List Bytes) : List FsOp := .remove .tmp :: dumpPre pieces
+
+theorem dumpWriteOps_eq (pieces : List Bytes) (fail : Bool) :
+    dumpWriteOps pieces fail = dumpPre pieces ++ (if fail then [] else [.rename .tmp .dump]) := rfl
 
 theorem serializeOps_eq (pieces : List Bytes) (fail : Bool) :
     serializeOps pieces fail = serializePre pieces ++ (if fail then [] else [.rename .tmp .dump]) := rfl
 
+theorem dumpPre_safe (pieces : List Bytes) : ∀ op ∈ dumpPre pieces, op.safe = true := by
+  intro op h
+  simp only [dumpPre, List.mem_append, List.mem_singleton, List.mem_map] at h
+  rcases h with (h | ⟨p, _, h⟩) | h <;> subst h <;> simp [FsOp.safe]
+
 theorem serializePre_safe (pieces : List Bytes) : ∀ op ∈ serializePre pieces, op.safe = true := by
   intro op h
-  simp only [serializePre, List.mem_append, List.mem_singleton, List.mem_map] at h
-  rcases h with (h | ⟨p, _, h⟩) | h <;> subst h <;> simp [FsOp.safe]
+  rcases List.mem_cons.mp h with h | h
+  · subst h; simp [FsOp.safe]
+  · exact dumpPre_safe pieces op h
+
+theorem FS.run_dumpPre (fs : FS) (pieces : List Bytes) :
+    (fs.run (dumpPre pieces)).tmp = some pieces.flatten ∧ (fs.run (dumpPre pieces)).dump = fs.dump
+    ∧ (fs.run (dumpPre pieces)).tmp1 = fs.tmp1 := by
+  have h0 : (fs.apply (.openW .tmp)).tmp = some [] := by simp [FS.apply, FS.set]
+  have := FS.run_writes_tmp (fs.apply (.openW .tmp)) [] pieces h0
+  simp only [dumpPre, FS.run_append, List.singleton_append, FS.run_cons, FS.run_nil]
+  simpa [FS.apply, FS.set] using this
 
 theorem FS.run_serializePre (fs : FS) (pieces : List Bytes) :
     (fs.run (serializePre pieces)).tmp = some pieces.flatten ∧ (fs.run (serializePre pieces)).dump = fs.dump
     ∧ (fs.run (serializePre pieces)).tmp1 = fs.tmp1 := by
-  have h0 : (fs.apply (.openW .tmp)).tmp = some [] := by simp [FS.apply, FS.set]
-  have := FS.run_writes_tmp (fs.apply (.openW .tmp)) [] pieces h0
-  simp only [serializePre, List.append_assoc, FS.run_append, List.singleton_append, FS.run_cons, FS.run_nil]
-  simpa [FS.apply, FS.set] using this
+  have := FS.run_dumpPre (fs.apply (.remove .tmp)) pieces
+  simpa [serializePre, FS.run_cons, FS.apply, FS.set] using this
+
+theorem FS.run_dumpWriteOps_ok (fs : FS) (pieces : List Bytes) :
+    (fs.run (dumpWriteOps pieces false)).dump = some pieces.flatten ∧ (fs.run (dumpWriteOps pieces false)).tmp = none
+    ∧ (fs.run (dumpWriteOps pieces false)).tmp1 = fs.tmp1 := by
+  obtain ⟨h1, h2, h3⟩ := FS.run_dumpPre fs pieces
+  simp [dumpWriteOps_eq, FS.run_append, FS.run_cons, FS.run_nil, FS.apply, FS.get, FS.set, h1, h3]
+
+theorem FS.run_dumpWriteOps_fail (fs : FS) (pieces : List Bytes) :
+    (fs.run (dumpWriteOps pieces true)).dump = fs.dump ∧ (fs.run (dumpWriteOps pieces true)).tmp1 = fs.tmp1 := by
+  obtain ⟨h1, h2, h3⟩ := FS.run_dumpPre fs pieces
+  simp [dumpWriteOps_eq, h2, h3]
 
 theorem FS.run_serializeOps_ok (fs : FS) (pieces : List Bytes) :
     (fs.run (serializeOps pieces false)).dump = some pieces.flatten ∧ (fs.run (serializeOps pieces false)).tmp = none
@@ -94,6 +123,11 @@ theorem FS.run_serializeOps_fail (fs : FS) (pieces : List Bytes) :
     (fs.run (serializeOps pieces true)).dump = fs.dump ∧ (fs.run (serializeOps pieces true)).tmp1 = fs.tmp1 := by
   obtain ⟨h1, h2, h3⟩ := FS.run_serializePre fs pieces
   simp [serializeOps_eq, h2, h3]
+
+theorem serialize_inline_fs (s : Ser) (id : Nat) (pieces : List Bytes) (fail : Bool)
+    (hm : s.mode = .file) (hf : s.fork = false) (hp : s.pid = .idle) :
+    (s.serialize id pieces fail).1.fs = s.fs.run (serializeOps pieces fail) := by
+  simp [Ser.serialize, hm, hf, hp, serializeOps, FS.run_cons]
 
 /-- crash analysis of the dump write -/
 theorem serializeOps_crash (fs : FS) (pieces : List Bytes) (fail : Bool) (k : Nat) :
